@@ -310,7 +310,8 @@ def run_kernel(ctx, ob, spec, rec):
     rec.setdefault("shapes", [])
     rec["cex"] = []
     rec["panics_allowed"] = 0
-    rng = random.Random(ctx.seed * 7919 + hash(ob.id) % 1000)
+    import zlib
+    rng = random.Random(ctx.seed * 7919 + zlib.crc32(ob.id.encode()) % 1000)      # deterministic per (VERIF_SEED, obligation)
     for inst in spec.instantiations(ctx.tier):
         fn = spec.get_fn(ctx, inst)
         for shape in spec.shapes(ctx.tier, inst):
